@@ -205,7 +205,7 @@ def wstep (w : World) (ws : List String) : World × String :=
     match parseSide side, u.toNat? with
     | some sd, some u =>
       let (w', o) := w.browse sd u none
-      (w', answer w w' (match o with | .ret b => s!"ret {showBool b}" | .raised => "raised"))
+      (w', answer w w' (match o with | .ret b => s!"ret {showBool b}"))
     | _, _ => (w, "bad-op")
   | ["browse", side, u, id, host, port, path] =>
     let h : Option World.Host := match host.splitOn ":" with
@@ -215,7 +215,7 @@ def wstep (w : World) (ws : List String) : World × String :=
     match parseSide side, u.toNat?, id.toNat?, h, parseOptNat port, parsePath path with
     | some sd, some u, some id, some h, some port, some pa =>
       let (w', o) := w.browse sd u (some { id := id, host := h, port := port, path := pa })
-      (w', answer w w' (match o with | .ret b => s!"ret {showBool b}" | .raised => "raised"))
+      (w', answer w w' (match o with | .ret b => s!"ret {showBool b}"))
     | _, _, _, _, _, _ => (w, "bad-op")
   | ["ntpreq", side, u] =>
     match parseSide side, u.toNat? with
